@@ -224,7 +224,12 @@ public:
     std::swap(hash_fn_, other.hash_fn_);
     std::swap(eq_fn_, other.eq_fn_);
     buckets_.swap(other.buckets_);
+    old_buckets_.swap(other.old_buckets_);
     all_locks_.swap(other.all_locks_);
+    other.num_remaining_lazy_rehash_locks_.store(
+        num_remaining_lazy_rehash_locks_.exchange(
+            other.num_remaining_lazy_rehash_locks(), std::memory_order_release),
+        std::memory_order_release);
     other.minimum_load_factor_.store(
         minimum_load_factor_.exchange(other.minimum_load_factor(),
                                       std::memory_order_release),
